@@ -948,8 +948,14 @@ func c11EnumCancel(c *Ctx, s *massiveScenario, arm string, mk func(*DiskPlan) *E
 	var ks []int
 	if k, ok := c.Param("k"); ok {
 		ks = []int{k}
-	} else if *fTier == "thorough" || n <= 24 {
+	} else if (*fTier == "thorough" && n <= 400) || n <= 24 {
 		for k := 0; k <= n; k++ {
+			ks = append(ks, k)
+		}
+	} else if *fTier == "thorough" {
+		// long base schedules (many roots): every (n/400+1)-th instant, from a seeded offset
+		stride := n/400 + 1
+		for k := int(mix(c.Seed, 78) % uint64(stride)); k <= n; k += stride {
 			ks = append(ks, k)
 		}
 	} else {
